@@ -327,8 +327,60 @@ def reset_rule(rep, prog):
     rep.floor("reset outcomes", 1, n)
 
 
+def _owner_fields(fn, pl):
+    """(owner ADT path, field name) for every field projection of a place"""
+    t = fn["locals"][pl["local"]]["ty"]
+    out = []
+    for pj in pl["proj"]:
+        if "deref" in pj:
+            if isinstance(t, dict) and t.get("k") == "ref":
+                t = t.get("to")
+            continue
+        if "field" in pj:
+            owner = t.get("path") if isinstance(t, dict) and t.get("k") == "adt" else None
+            out.append((owner, pj.get("name")))
+            t = pj.get("ty")
+        else:
+            t = None
+    return out
+
+
+def receiver_rule(rep, prog):
+    rid = rep.rule("R6", "the receiver position (Settings.lat / Settings.long), from which distances are computed and on which the default view is centred, is written only by Settings::new and by the GPS update in main: no key / mouse handler or view mutator assigns it or borrows it mutably")
+    ALLOWED = {"radar::Settings::new": 0, "radar::main": 2}
+    seen = {}
+    for path, f in sorted(prog.crates["radar"].fns.items()):
+        for b in f["blocks"]:
+            for s in b["stmts"]:
+                if "assign" not in s:
+                    continue
+                pl, rv = s["assign"]
+                hits = []
+                of = _owner_fields(f, pl)
+                if of and of[-1][0] == "radar::Settings" and of[-1][1] in ("lat", "long"):
+                    hits.append(("assigns", of[-1][1]))
+                if isinstance(rv, dict) and "ref" in rv and rv["ref"].get("mut"):
+                    of2 = _owner_fields(f, rv["ref"]["place"])
+                    if of2 and of2[-1][0] == "radar::Settings" and of2[-1][1] in ("lat", "long"):
+                        hits.append(("mutably borrows", of2[-1][1]))
+                for what, fld in hits:
+                    seen.setdefault(pub_path(path), []).append((what, fld))
+    for path, hs in sorted(seen.items()):
+        rep.instance(rid, path, sample={"fn": path, "writes": hs})
+        if path not in ALLOWED or len(hs) > ALLOWED[path]:
+            rep.violation("R6", "receiver-position-writer:%s" % path, "%s %s Settings.%s (the receiver position): panning and zooming may only change the view (custom_lat / custom_long / scale)" % (path, hs[0][0], hs[0][1]))
+    rep.instance(rid, "writers", sample={"writers": sorted(seen)})
+    if "radar::main" not in seen:
+        rep.info("no GPS update of the receiver position found in main")
+
+
+def pub_path(path):
+    return re.sub(r"(::\{closure#\d+\})+$", "", path)
+
+
 def run(rep, tier, replay=None):
     prog = facts.load("std")
+    receiver_rule(rep, prog)
     table_rule(rep, prog)
     stats_rule(rep, prog)
     projection_rule(rep, prog)
@@ -339,4 +391,4 @@ def run(rep, tier, replay=None):
     return rep.finish(
         "Structural skeleton only. R1: build_tab_airplanes is interpreted on a tracker holding one record with named symbolic values; the ten cells handed to Row::new are "
         "matched column by column with the record's values (and blanks without a position). R2: Stats::update interpreted for Added::Yes/No. R3: to_xy's polynomial normal "
-        "forms: x = k*scale*(lon - centre lon), y = k*scale*(g(lat) - g(centre lat)) with positive k, independent of the other coordinate, centre -> (0,0). R4: field-writer sets of the view mutators. R5: the assignments of Settings::reset.")
+        "forms: x = k*scale*(lon - centre lon), y = k*scale*(g(lat) - g(centre lat)) with positive k, independent of the other coordinate, centre -> (0,0). R4: field-writer sets of the view mutators. R5: Settings::reset interpreted on a tagged record. R6: writers / mutable borrowers of the receiver position.")
